@@ -77,25 +77,133 @@ func arrayRows(arr *ssa.Alloc) []structAlt {
 	return rows
 }
 
-// tableOf: the local array behind an indexable value (array value loaded from it, pointer to it, a full slice of it).
-func tableOf(v ssa.Value) *ssa.Alloc {
+// tableOf: the array behind an indexable value (array value loaded from it, pointer to it, a full slice of it): a local
+// built as a literal, or a package-level array that only its initialiser writes.
+func tableOf(v ssa.Value) ssa.Value {
 	switch x := v.(type) {
 	case *ssa.Alloc:
 		return x
+	case *ssa.Global:
+		return x
 	case *ssa.UnOp:
 		if x.Op == token.MUL {
-			if al, ok := x.X.(*ssa.Alloc); ok {
-				return al
+			switch a := x.X.(type) {
+			case *ssa.Alloc:
+				return a
+			case *ssa.Global:
+				return a
 			}
 		}
 	case *ssa.Slice:
 		if x.Low == nil && x.High == nil {
-			if al, ok := x.X.(*ssa.Alloc); ok {
-				return al
+			switch a := x.X.(type) {
+			case *ssa.Alloc:
+				return a
+			case *ssa.Global:
+				return a
 			}
 		}
 	}
 	return nil
+}
+
+// rowsOf: arrayRows for a local literal, globalRows for a package-level table.
+func (e *Env) rowsOf(tbl ssa.Value) []structAlt {
+	switch x := tbl.(type) {
+	case *ssa.Alloc:
+		return arrayRows(x)
+	case *ssa.Global:
+		return e.P.globalRows(x)
+	}
+	return nil
+}
+
+var globalRowsCache = map[*ssa.Global][]structAlt{}
+var globalRowsDone = map[*ssa.Global]bool{}
+
+// globalRows: the elements of a package-level array whose initialiser (in the package's init function) fills every element
+// at a constant index and which nothing else in the module writes or hands out by address other than element by element for
+// reading.
+func (p *Prog) globalRows(g *ssa.Global) []structAlt {
+	if globalRowsDone[g] {
+		return globalRowsCache[g]
+	}
+	globalRowsDone[g] = true
+	pt, ok := g.Type().Underlying().(*types.Pointer)
+	if !ok {
+		return nil
+	}
+	at, ok := pt.Elem().Underlying().(*types.Array)
+	if !ok || at.Len() == 0 || at.Len() > 64 {
+		return nil
+	}
+	rows := make([]structAlt, at.Len())
+	for _, fn := range p.allFuncsIncludingInit() {
+		isInit := fn.Name() == "init" && fn.Pkg == g.Pkg
+		for _, b := range fn.Blocks {
+			for _, in := range b.Instrs {
+				uses := false
+				for _, op := range in.Operands(nil) {
+					if *op == ssa.Value(g) {
+						uses = true
+					}
+				}
+				if !uses {
+					continue
+				}
+				switch x := in.(type) {
+				case *ssa.UnOp: // the array value as a whole, for reading
+				case *ssa.IndexAddr:
+					if x.X != ssa.Value(g) || x.Referrers() == nil {
+						return nil
+					}
+					k, isConst := constInt(x.Index)
+					for _, rr := range *x.Referrers() {
+						switch y := rr.(type) {
+						case *ssa.UnOp, *ssa.DebugRef:
+						case *ssa.Store:
+							if y.Addr != ssa.Value(x) || !isInit || !isConst || k < 0 || k >= at.Len() || rows[k].val != nil || rows[k].addr != nil {
+								return nil
+							}
+							rows[k] = structAlt{val: y.Val}
+						case *ssa.FieldAddr:
+							stores := false
+							if y.Referrers() != nil {
+								for _, r3 := range *y.Referrers() {
+									switch r3.(type) {
+									case *ssa.UnOp, *ssa.DebugRef:
+									case *ssa.Store:
+										stores = true
+									default:
+										if _, isCall := r3.(ssa.CallInstruction); !isCall {
+											return nil
+										}
+									}
+								}
+							}
+							if stores {
+								if !isInit || !isConst || k < 0 || k >= at.Len() || rows[k].val != nil {
+									return nil
+								}
+								rows[k] = structAlt{addr: x}
+							}
+						default:
+							return nil
+						}
+					}
+				default:
+					return nil // stored as a whole, sliced, or its address handed on
+				}
+			}
+		}
+	}
+	for _, r := range rows {
+		if r.val == nil && r.addr == nil {
+			return nil
+		}
+	}
+	globalRowsCache[g] = rows
+	return rows
 }
 
 // soleWholeStore: the value of the only store into a local struct variable that is written as a whole exactly once and
@@ -152,7 +260,16 @@ func (e *Env) structAlts(sv ssa.Value, depth int) []structAlt {
 	case *ssa.Index:
 		if _, isConst := constInt(x.Index); !isConst {
 			if al := tableOf(x.X); al != nil {
-				if rows := arrayRows(al); rows != nil {
+				if rows := e.rowsOf(al); rows != nil {
+					return e.expandRows(rows, depth)
+				}
+			}
+		}
+	case *ssa.IndexAddr:
+		// a pointer to the row: flag := &table[i]
+		if _, isConst := constInt(x.Index); !isConst {
+			if al := tableOf(x.X); al != nil {
+				if rows := e.rowsOf(al); rows != nil {
 					return e.expandRows(rows, depth)
 				}
 			}
@@ -171,7 +288,7 @@ func (e *Env) structAlts(sv ssa.Value, depth int) []structAlt {
 		case *ssa.IndexAddr:
 			if _, isConst := constInt(a.Index); !isConst {
 				if al := tableOf(a.X); al != nil {
-					if rows := arrayRows(al); rows != nil {
+					if rows := e.rowsOf(al); rows != nil {
 						return e.expandRows(rows, depth)
 					}
 				}
